@@ -37,7 +37,7 @@ func GenC18(t *rapid.T) *C18Case {
 	if oneIn(t, 40, "huge") {
 		n = []int{255, 256, 257, 258, 259, 1001}[drawIdx(t, 6, "hugen")] // block-wise / chunked folds
 	}
-	long := n > 20 // long lists: small magnitudes so that no product leaves the float64 range
+	long := n > 20                   // long lists: small magnitudes so that no product leaves the float64 range
 	sign := drawInt(t, 0, 3, "sign") // 0 mixed, 1 all negative, 2 all positive, 3 mixed
 	apply := func(x float64) float64 {
 		switch sign {
